@@ -3,6 +3,8 @@ package rules
 import (
 	"go/token"
 	"go/types"
+	"os"
+	"regexp"
 	"strings"
 
 	"golang.org/x/tools/go/ssa"
@@ -433,6 +435,26 @@ func c16EnumRule(r *core.Run, rule string) {
 				}
 			})
 			if hasFn || hasTy {
+				// no member, named type or method is left out for a property of its own (generic, unexported, ...):
+				// the calls that hand a function to the enumerator are conditioned only on kind tests, nil tests and
+				// the loops themselves
+				core.InstrsOf(fn, func(in ssa.Instruction) {
+					c := core.CallOf(in)
+					if c == nil {
+						return
+					}
+					g := core.StaticCallee(c)
+					if g == nil || !p.IsProdFunc(g) || len(c.Args) == 0 || !isSSAFunctionPtr(c.Args[0].Type()) {
+						return
+					}
+					for _, gd := range mandatoryGuards(fn, in.Block()) {
+						okG := memberGuardOK(gd)
+						if os.Getenv("SFW_DUMP") == "enum" {
+							println("GUARD", core.FuncName(fn), gd)
+						}
+						r.Check(okG, rule, core.FuncName(fn)+"#member-skip", in.Pos(), "members, named types and methods reach the enumerator unless a kind or nil test fails", "a package member, named type or method is kept from the enumerator by "+gd+": the functions so exempted (e.g. the methods of generic types) are never fingerprinted, scanned or listed, and nothing reports it")
+					}
+				})
 				nSw++
 				r.Check(hasFn && hasTy && methods, rule, core.FuncName(fn)+"#member-kinds", fn.Pos(), "package members: functions and every method of named types are enumerated", "the member enumeration does not cover functions and all methods of named types")
 			}
@@ -646,4 +668,25 @@ func c16Attr(r *core.Run) {
 		})
 	}
 	r.Floor("C16.ATTR", "Line/Filename attributions", n, 2)
+}
+
+var memberGuardShapes = []*regexp.Regexp{
+	regexp.MustCompile(`^assert\(.*\)#1$`),                     // kind test of a member / type
+	regexp.MustCompile(`^extract$`),                            // range over the member map
+	regexp.MustCompile(`(== nil\)|!= nil\))$`),                 // nil tests
+	regexp.MustCompile(`^\(builtin\.len\(.*\) (==|!=|>) 0\)$`), // nothing to enumerate / no body
+	regexp.MustCompile(`^\(+phi\(.* < .*\)$`),                  // loop index against a length or method count
+}
+
+// memberGuardOK: the guard (polarity:shape) is one of the tests that do not depend on a property of the member.
+func memberGuardOK(gd string) bool {
+	if i := strings.Index(gd, ":"); i >= 0 {
+		gd = gd[i+1:]
+	}
+	for _, re := range memberGuardShapes {
+		if re.MatchString(gd) {
+			return true
+		}
+	}
+	return false
 }
